@@ -5,9 +5,14 @@
 //! the JSON), exit 3 = usage error. The python driver decides the exit status
 //! of the check.
 
+mod alloc_count;
+mod props_a;
 mod real;
 mod run;
 mod value;
+
+#[global_allocator]
+static GLOBAL: alloc_count::Counting = alloc_count::Counting;
 
 use mlxcore::exact::{F32, F64};
 use mlxcore::families::{self as fam, Job, M32, M64};
@@ -40,7 +45,7 @@ fn parse_args() -> Args {
 }
 
 /// Families shared by the value-correctness properties, for one format mask.
-fn value_families(a: &Args, fmts: u8) -> Vec<(&'static str, Vec<Job>)> {
+pub fn value_families(a: &Args, fmts: u8) -> Vec<(&'static str, Vec<Job>)> {
     let mut v: Vec<(&'static str, Vec<Job>)> = Vec::new();
     if a.thorough {
         v.push(("SHORT(5) sci in [-345,310]", fam::short(5, -345, 310, "SHORT5")));
@@ -97,7 +102,7 @@ pub fn read_hard(path: &str) -> Vec<(u8, i32, u64)> {
     out
 }
 
-fn hard_jobs(path: &str, fmts: u8) -> Vec<Job> {
+pub fn hard_jobs(path: &str, fmts: u8) -> Vec<Job> {
     let all: Vec<(u8, i32, u64)> = read_hard(path).into_iter().filter(|x| x.0 & fmts != 0).collect();
     let mut jobs: Vec<Job> = Vec::new();
     for chunk in all.chunks(256) {
@@ -160,6 +165,26 @@ fn f32_midpoint_families(a: &Args) -> Vec<(&'static str, Vec<Job>)> {
     vec![(if a.thorough { "F32-MIDPOINTS all binades" } else { "F32-MIDPOINTS four complete binades" }, jobs)]
 }
 
+pub fn rle_str(b: &[u8]) -> String {
+    if b.is_empty() {
+        return "-".to_string();
+    }
+    let mut o = String::new();
+    let mut i = 0;
+    while i < b.len() {
+        let mut j = i;
+        while j < b.len() && b[j] == b[i] {
+            j += 1;
+        }
+        if !o.is_empty() {
+            o.push(',');
+        }
+        o.push_str(&format!("{}x{}", b[i], j - i));
+        i = j;
+    }
+    o
+}
+
 fn rle_arg(s: &str) -> Vec<u8> {
     let mut out = Vec::new();
     if s == "-" {
@@ -210,6 +235,14 @@ fn main() {
             run_value(&a, M32, f)
         },
         "replay-parse" => replay_parse(&a.rest),
+        "c03" => props_a::c03(&a),
+        "c04" => props_a::c04(&a),
+        "c05" => props_a::c05(&a),
+        "c06" => props_a::c06(&a),
+        "c07" => props_a::c07(&a),
+        "c09" => props_a::c09(&a),
+        "c10" => props_a::c10(&a),
+        "c15" => props_a::c15(&a),
         _ => {
             eprintln!("unknown property {:?}", a.prop);
             std::process::exit(3);
